@@ -246,4 +246,9 @@ Ltac kinv_dbg n s I :=
                | clause_dbg n s I ..].
 
 (* unfold one label of kstep, split its guards *)
-Ltac start H s' := cbn [kstep] in H; guards; injection H as H; subst s'; bnorm.
+Ltac start H s' :=
+  cbn [kstep] in H; guards;
+  repeat match type of H with
+         | Some (if ?b then _ else _) = Some _ => let E := fresh "G" in destruct b eqn:E
+         end;
+  injection H as H; subst s'; bnorm.
